@@ -973,10 +973,20 @@ def report(ctx: Ctx, case: dict, probs: list[str]) -> None:
 
 def dist_checks(ctx: Ctx, rng, count: int) -> None:
     """Gaussian.value / TopHat.value / Constant.value against the tape model, bounds, reseeding"""
-    for _ in range(count):
+    # directed: one-sided Gaussians whose centre sits ON the declared bound (every second draw has to be redrawn),
+    # both bounds on one side of the centre, a degenerate TopHat
+    directed = [{"kind": "gaussian", "c": 0.0, "d": 1.0, "lo": 0.0, "hi": None},
+                {"kind": "gaussian", "c": 0.0, "d": 1.0, "lo": None, "hi": 0.0},
+                {"kind": "gaussian", "c": 0.5, "d": 0.2, "lo": 0.6, "hi": None},
+                {"kind": "gaussian", "c": 0.5, "d": 0.2, "lo": 0.55, "hi": 0.75},
+                {"kind": "tophat", "lo": 0.25, "hi": 0.25}]
+    for i in range(count + len(directed)):
         what = rng.choice(["bs", "loss", "off"])
         d = rand_dist(rng, what)
-        if rng.random() < 0.15:
+        if i < len(directed):
+            d = directed[i]
+            ctx.count("dist:directed")
+        elif rng.random() < 0.15:
             d = rng.choice([{"kind": "tophat", "lo": 0.5, "hi": 0.25},
                             {"kind": "gaussian", "c": 0.0, "d": 1.0, "lo": 1.0, "hi": -1.0},
                             {"kind": "gaussian", "c": 0.5, "d": 0.01, "lo": 0.5, "hi": 0.501},
